@@ -78,15 +78,26 @@ def printed_any(out, tag):
 def beh_cases(r, what):
     """All BEH lines of a generation run, canonically ordered (TLC's worker interleaving must not
     influence the concretisation seeds) and numbered."""
-    b = r.printed("BEH")
-    if len(b) != r.out.count('<<"BEH", '):
-        raise Broken("%s: %d BEH lines printed, %d parsed" % (what, r.out.count('<<"BEH", '), len(b)))
-    keyed = sorted(set(json.dumps(x, sort_keys=True) for x in b))
+    pre = '<<"BEH", "'
+    raw = set()
+    n = 0
+    for line in r.out.splitlines():
+        if line.startswith(pre) and line.endswith('">>'):
+            n += 1
+            raw.add(T._unescape(line[len(pre):-3]))
+    if n != r.out.count('"BEH"'):      # e.g. a line wrapped by TLC's pretty printer
+        raise Broken("%s: %d BEH prints, %d parsed" % (what, r.out.count('"BEH"'), n))
     cases = []
-    for i, k in enumerate(keyed):
-        c = json.loads(k)
+    # TLC prints the fields of equal records in the same order: sorting the texts is canonical
+    for i, k in enumerate(sorted(raw)):
+        try:
+            c = json.loads(k)
+        except ValueError as e:
+            raise Broken("%s: cannot parse BEH line %s (%s)" % (what, k[:200], e))
         c["id"] = i
         cases.append(c)
+    if not cases:
+        raise Broken("%s: no BEH line printed" % what)
     return cases
 
 
@@ -144,3 +155,78 @@ def run_cases(ctx, exe, cases, n, procs=4, timeout=1500, tag="c"):
         except OSError:
             pass
     return results
+
+
+# ---- code -> spec driver shared by C09 / C16 -------------------------------------------------------------
+def record_validate(ctx, exe, *, harness, module, cfg_template, alldevs, n, need_kinds, describe, max_reports=12):
+    """Records n real executions (harness `record <seed> <n>`), validates them with trace spec `module`
+    (Dev = the deviations currently listed as known) and classifies: explained -> fine; explained only
+    through a named deviation -> ctx.deviation; not explained -> ctx.violation."""
+    from . import hrun
+
+    def cfg(name, devs):
+        p = ctx.rundir.file(name)
+        with open(p, "w") as f:
+            f.write(cfg_template % {"dev": ", ".join('"%s"' % d for d in sorted(devs))})
+        return p
+    h = hrun.run_harness(exe, ["record", ctx.seed, n], timeout=1500, env=SAN_ENV)
+    lines, crash = [], None
+    for ln in h.lines:
+        try:
+            o = json.loads(ln)
+        except ValueError:
+            continue                      # a line cut short by a crash
+        if o.get("v") == "crash":
+            crash = o
+        elif "e" in o:
+            lines.append(ln)
+    if h.rc == 9 or h.timed_out:
+        raise Broken("recorder failed: " + h.err[-1500:])
+    if h.crashed or h.rc != 0 or crash:
+        crash = crash or {}
+        ctx.violation("the real propagator crashed / sanitizer report while recording, input %s\n%s" % (
+            json.dumps(crash.get("concrete")), h.err[-1500:]),
+            {"harness": harness, "mode": "record", "seed": ctx.seed, "n": n, "concrete": crash.get("concrete")})
+    elif len(lines) != n:
+        raise Broken("recorder printed %d of %d events" % (len(lines), n))
+    known = sorted(set(alldevs) & ctx.known_devs())
+    res = validate_events(ctx, module, cfg("trace.cfg", known), lines, chunk=3000, parallel=4, tag="tv")
+    kinds = res["kinds"]
+    if crash is None and any(kinds.get(k, 0) == 0 for k in need_kinds):
+        raise Broken("vacuity: recorded inputs do not cover every kind: %s" % kinds)
+    for d, at in res["devs"].items():
+        ev = json.loads(lines[at])
+        ctx.deviation(d, describe(ev), {"monitor": module, "events": [ev], "dev": known})
+    bad = res["bad"]
+    if bad:
+        # not explained with the known deviations: is it one of the other named ones?
+        sub = [lines[i] for i in bad]
+        res2 = validate_events(ctx, module, cfg("trace-all.cfg", alldevs), sub, chunk=3000, parallel=1, tag="tv2")
+        still = set(res2["bad"])
+        named = sorted(res2["devs"])
+        for k, i in enumerate(bad[:max_reports]):
+            ev = json.loads(lines[i])
+            rep = {"monitor": module, "events": [ev], "dev": known}
+            what = "recorded execution not explained by the spec: " + describe(ev)
+            if k in still or len(named) != 1:
+                ctx.violation(what, rep)
+            else:
+                ctx.deviation(named[0], what, rep)
+    ctx.evaluations += len(lines)
+    for i in range(len(lines)):
+        ctx.distinct.add(("ev", i))
+    ctx.extra["trace_validation"] = {"events": len(lines), "unexplained": len(bad), "kinds": kinds,
+                                     "deviations_used": sorted(res["devs"])}
+    if lines:
+        ctx.sample({"kind": "recorded real execution validated by %s" % module, "event": json.loads(lines[0])})
+
+
+def replay_events(ctx, module, cfg_template, alldevs, events):
+    p = ctx.rundir.file("trace.cfg")
+    with open(p, "w") as f:
+        f.write(cfg_template % {"dev": ", ".join('"%s"' % d for d in sorted(set(alldevs) & ctx.known_devs()))})
+    lines = [json.dumps(e) for e in events]
+    res = validate_events(ctx, module, p, lines, chunk=3000, parallel=1, tag="rp")
+    for i in res["bad"]:
+        ctx.violation("replayed event not explained by the spec", {"monitor": module, "events": [events[i]]})
+    ctx.sample({"kind": "replayed event", "event": events[0]})
